@@ -120,17 +120,74 @@ def classify(T, e):
     return "err " + type(e).__name__
 
 
-def run_impl(T, proj, req_names, rank):
+def run_impl(T, proj, req_names, rank, runner=None):
     log = T.VerifRecordTask.log
     del log[:]
     try:
-        T.TaskRunner().run(proj, list(req_names))
+        (runner or T.TaskRunner()).run(proj, list(req_names))
     except Exception as e:  # noqa
         r = classify(T, e)
         if log:
             r += " after-running " + fmt([rank[x] for x in log])
         return r
     return "ok " + fmt([rank[x] for x in log])
+
+
+def ops_str(ops):
+    out = []
+    for op in ops:
+        if op[0] == "r":
+            out.append("r" + ".".join(map(str, op[1])))
+        elif op[0] == "c":
+            out.append(f"c{op[1]}")
+        elif op[0] == "t":
+            out.append("t" + ".".join(map(str, [op[1]] + sorted(set(op[2])))))
+        else:
+            out.append(f"d{op[1]}.{op[2]}")
+    return ";".join(out)
+
+
+def run_history(T, graph0, n, ops, k=0, scheme=0):
+    """ONE Project object and ONE TaskRunner for the whole list of calls.  ops: ("r", req) TaskRunner.run,
+    ("c", t) check_target, ("t", t, deps) add_target of a new Target, ("d", t, d) targets[t].add_dependency(d).
+    Returns the observations and, per op, the dependency graph as it was when the op was made."""
+    names = names_for(n, scheme)
+    rank = {nm: i for i, nm in enumerate(names)}
+    proj = make_project(T, graph0, names, k)
+    runner = T.TaskRunner()
+    graph = {t: sorted(set(ds)) for t, ds in graph0.items()}
+    outs, snaps = [], []
+    for op in ops:
+        snaps.append(graph)
+        if op[0] == "r":
+            outs.append(run_impl(T, proj, [names[r] for r in op[1]], rank, runner))
+        elif op[0] == "c":
+            outs.append(check_impl(T, proj, names[op[1]]))
+        elif op[0] == "t":
+            t = T.Target(names[op[1]], proj)
+            for d in op[2]:
+                t.add_dependency(names[d])
+            t.add_task(("verifrecord", {"tag": "x"}))
+            try:
+                proj.add_target(t)
+            except T.TaskError as e:
+                outs.append("D" if str(e.msg).startswith("Duplicate target") else "err TaskError:other")
+            except Exception as e:  # noqa
+                outs.append("err " + type(e).__name__)
+            else:
+                outs.append("u")
+                graph = dict(graph)
+                graph[op[1]] = sorted(set(op[2]))
+        else:
+            try:
+                proj.targets[names[op[1]]].add_dependency(names[op[2]])
+            except Exception as e:  # noqa
+                outs.append("err " + type(e).__name__)
+            else:
+                outs.append("u")
+                graph = dict(graph)
+                graph[op[1]] = sorted(set(graph[op[1]]) | {op[2]})
+    return outs, snaps
 
 
 def check_impl(T, proj, name):
@@ -229,7 +286,7 @@ def evaluate(graph, req, impl, fails, site="run"):
     if cyclic:
         fails.append((f"{site}:loop-missed", f"{site} does not report the reachable dependency cycle ({impl[:40]})"))
         return needed, cyclic, dangling
-    if site == "check_target":
+    if site.startswith("check_target"):
         if impl != "ok":
             fails.append((f"{site}:crash:{impl[4:]}", f"{site} failed with {impl} on an acyclic graph"))
         return needed, cyclic, dangling
@@ -239,6 +296,10 @@ def evaluate(graph, req, impl, fails, site="run"):
     order = json.loads(impl[3:])
     for v in sorted(needed):
         c = order.count(v)
+        if c == 0:
+            kind = "requested-target-not-executed" if v in req else "dependency-not-executed"
+            fails.append((f"{site}:{kind}", f"needed target {v} was not executed"))
+            break
         if c != 1:
             fails.append((f"{site}:not-exactly-once", f"needed target {v} executed {c} times"))
             break
@@ -385,9 +446,43 @@ class Batch:
             self.items.append(("all", graph, subs, c, (runs, checks)))
         bump(self.s, "graphs_enumerated", hi - lo)
 
+    def add_histories(self, hists):
+        """hists: dicts {graph, n, ops, k, scheme}: each one is played on ONE fresh Project + TaskRunner"""
+        T = self.T
+        for h in hists:
+            outs, snaps = run_history(T, h["graph"], h["n"], h["ops"], h.get("k", 0), h.get("scheme", 0))
+            self.lines.append(f"hist {gstr(h['graph'])} {ops_str(h['ops'])}")
+            self.items.append(("hist", h["graph"], h["ops"], h, (outs, snaps)))
+        bump(self.s, "histories", len(hists))
+
+    def finish_history(self, line, reply, graph0, ops, h, outs, snaps):
+        toks = reply[3:].split(";") if reply.startswith("ok ") else []
+        if len(toks) != len(ops):
+            toks = ["?" + reply[:30]] * len(ops)
+        built = False                                   # has an earlier call of this history walked the graph?
+        for i, (op, impl, tk) in enumerate(zip(ops, outs, toks)):
+            c = dict(h, op_index=i)
+            where = f"{line} #{i}"
+            if op[0] == "r":
+                self.one("run:history" if built else "run", snaps[i], op[1], c, impl, untok(tk), where)
+                built = True
+            elif op[0] == "c":
+                self.one("check_target:history" if built else "check_target", snaps[i], [op[1]], c, impl, untok(tk, True), where)
+                built = True
+            else:
+                bump(self.s, "eval_edit")
+                if impl != tk:
+                    bump(self.s, "disagreements")
+                    if len(self.s["disagree"]) < 50:
+                        self.s["disagree"].append({"what": "edit", "case": case_json(c, snaps[i], []), "request": where,
+                                                   "impl": impl, "model": tk})
+
     def finish(self):
         replies = driver(self.lines) if self.lines else []
         for line, reply, (site, graph, req, c, impl) in zip(self.lines, replies, self.items):
+            if site == "hist":
+                self.finish_history(line, reply, graph, req, c, *impl)
+                continue
             if site != "all":
                 self.one(site, graph, req, c, impl, reply, line)
                 continue
@@ -449,13 +544,32 @@ def g_of(graph):
 
 
 def case_json(c, graph, req):
-    return {"graph": {str(k): sorted(v) for k, v in sorted(graph.items())}, "n": c["n"], "req": list(req),
-            "k": c.get("k", 0), "scheme": c.get("scheme", 0)}
+    j = {"graph": {str(k): sorted(v) for k, v in sorted(graph.items())}, "n": c["n"], "req": list(req),
+         "k": c.get("k", 0), "scheme": c.get("scheme", 0)}
+    if "ops" in c:      # a history: `graph` above is the project at the failing call, the whole history follows
+        j["history"] = {"initial_graph": {str(k): sorted(v) for k, v in sorted(c["graph"].items())},
+                        "ops": [list(op) for op in c["ops"]], "ops_text": ops_str(c["ops"]), "op_index": c.get("op_index")}
+    return j
 
 
 def case_from_json(j):
     return {"graph": {int(k): list(v) for k, v in j["graph"].items()}, "n": j["n"], "req": list(j["req"]),
             "k": j.get("k", 0), "scheme": j.get("scheme", 0)}
+
+
+def history_from_json(j):
+    h = j["history"]
+    return {"graph": {int(k): list(v) for k, v in h["initial_graph"].items()}, "n": j["n"],
+            "ops": [tuple(op) for op in h["ops"]], "k": j.get("k", 0), "scheme": j.get("scheme", 0)}
+
+
+def replay_case(j):
+    b = Batch()
+    if "history" in j:
+        b.add_histories([history_from_json(j)])
+    else:
+        b.add_cases([case_from_json(j)])
+    return b.finish()
 
 
 # --------------------------------------------------------------------------------------------
@@ -574,6 +688,117 @@ def permuted_request_cases(rng, count):
 
 
 # --------------------------------------------------------------------------------------------
+# histories: several builds / checks / edits on one Project object
+# --------------------------------------------------------------------------------------------
+def request_lists(n):
+    """every duplicate-free request list over 0..n-1 (all orders)"""
+    out = []
+    for r in range(1, n + 1):
+        out += [list(p) for p in itertools.permutations(range(n), r)]
+    return out
+
+
+CORPUS_HISTORIES = [
+    # (initial graph, n, ops)
+    ({0: [1], 1: []}, 2, [("r", [1, 0]), ("r", [0])]),                        # second seeded change: 2nd build ran only 0
+    ({0: [1], 1: []}, 2, [("r", [1, 0]), ("r", [0, 1])]),                     # … and here 0 before 1
+    ({0: [2], 1: [2], 2: []}, 3, [("r", [0, 1]), ("r", [1])]),               # app, tests -> lib
+    ({0: [2], 1: [2], 2: []}, 3, [("c", 0), ("r", [0, 1]), ("c", 1), ("r", [1]), ("r", [1, 0])]),
+    ({0: [1], 1: []}, 2, [("r", [0]), ("r", [0]), ("r", [0])]),               # the same build three times
+    ({0: [1], 1: []}, 2, [("r", [1, 0]), ("d", 1, 0), ("r", [0])]),           # an edit closes a loop between builds
+    ({0: [1], 1: [0]}, 2, [("r", [0]), ("r", [1]), ("c", 0)]),                # a loop is reported every time
+    ({0: [1], 1: []}, 3, [("r", [1, 0]), ("t", 2, []), ("d", 0, 2), ("r", [0]), ("t", 2, [0]), ("r", [2])]),
+    ({0: [1]}, 2, [("r", [0]), ("t", 1, []), ("r", [0])]),                    # dangling name becomes a target
+    ({0: [1, 2], 1: [3], 2: [3], 3: []}, 4, [("r", [3, 2, 1, 0]), ("r", [0]), ("r", [1, 2]), ("r", [2, 0])]),
+]
+
+
+def corpus_histories():
+    return [{"graph": g, "n": n, "ops": ops, "k": k, "scheme": sc} for g, n, ops in CORPUS_HISTORIES for k, sc in ((0, 0), (7, 2))]
+
+
+def pair_histories(n, self_loops, lists, masks=None, length=2, rng=None, per_graph=None):
+    """for every graph (mask) every sequence of `length` builds with requests from `lists` on one project
+    (or `per_graph` random such sequences)"""
+    pairs = pairs_of(n, self_loops)
+    hists = []
+    for mask in (masks if masks is not None else range(1 << len(pairs))):
+        g = graph_of_mask(n, pairs, mask)
+        k, scheme = mask * 40503 % 9973, mask % len(NAME_SCHEMES)
+        if per_graph is None:
+            seqs = itertools.product(lists, repeat=length)
+        else:
+            seqs = ([rng.choice(lists) for _ in range(length)] for _ in range(per_graph))
+        for seq in seqs:
+            hists.append({"graph": g, "n": n, "ops": [("r", req) for req in seq], "k": k, "scheme": scheme})
+    return hists
+
+
+def edit_between_builds(n, masks, lists):
+    """[build A, add one missing dependency, build B] for every missing dependency"""
+    pairs = pairs_of(n, False)
+    hists = []
+    for mask in masks:
+        g = graph_of_mask(n, pairs, mask)
+        for u, v in pairs_of(n, True):
+            if v in g[u]:
+                continue
+            for a in lists:
+                for b in lists:
+                    hists.append({"graph": g, "n": n, "ops": [("r", a), ("d", u, v), ("r", b)], "k": mask, "scheme": mask % 4})
+    return hists
+
+
+def random_histories(rng, count):
+    """random calls on one project: builds, checks, add_dependency, add_target (new, dangling-fixing or duplicate)"""
+    hists = []
+    for _ in range(count):
+        n = rng.randint(2, 6)
+        present = [t for t in range(n) if rng.random() < 0.8] or [0]
+        p = rng.choice([0.15, 0.3, 0.5])
+        acyclic = rng.random() < 0.7
+        g = {t: [d for d in range(n) if d != t and rng.random() < p and (not acyclic or d > t)] for t in present}
+        exists = set(present)
+        ops = []
+        for _ in range(rng.randint(3, 8)):
+            x = rng.random()
+            if x < 0.6:
+                req = [rng.randrange(n) for _ in range(rng.randint(1, 3))]
+                ops.append(("r", req if rng.random() < 0.3 else list(dict.fromkeys(req))))
+            elif x < 0.7:
+                ops.append(("c", rng.randrange(n)))
+            elif x < 0.88:
+                t = rng.choice(sorted(exists))
+                d = rng.randrange(n)
+                if acyclic and rng.random() < 0.8 and d <= t:
+                    d = min(n - 1, t + 1) if t + 1 < n else t
+                if d != t or rng.random() < 0.1:
+                    ops.append(("d", t, d))
+            else:
+                t = rng.randrange(n)
+                ops.append(("t", t, [d for d in range(n) if d != t and rng.random() < p and (not acyclic or d > t)]))
+                exists.add(t)
+        if not any(op[0] == "r" for op in ops):
+            ops.append(("r", [present[0]]))
+        hists.append({"graph": g, "n": n, "ops": ops, "k": rng.randrange(10 ** 6), "scheme": rng.randrange(4)})
+    return hists
+
+
+def history_chunk(spec):
+    kind, n, lo, hi = spec
+    b = Batch(keep_keys=False)
+    if kind == "pairs-loops":       # graphs with self-loops, all pairs of request lists
+        b.add_histories(pair_histories(n, True, request_lists(n), range(lo, hi)))
+    elif kind == "triples":         # all triples of request lists
+        b.add_histories(pair_histories(n, False, request_lists(n), range(lo, hi), length=3))
+    elif kind == "pairs4":          # n=4: all pairs of ascending request subsets
+        b.add_histories(pair_histories(4, False, subsets(4), range(lo, hi)))
+    elif kind == "edits":
+        b.add_histories(edit_between_builds(n, range(lo, hi), subsets(n)))
+    return b.finish()
+
+
+# --------------------------------------------------------------------------------------------
 # check
 # --------------------------------------------------------------------------------------------
 def merge(ctx, s, keep_keys=True):
@@ -617,17 +842,41 @@ def check(ctx):
         b.add_spec((n, loops, 0, 1 << len(pairs_of(n, loops))))
     b.add_cases(random_cases(ctx.rng, 6000 if ctx.thorough else 600))
     b.add_cases(permuted_request_cases(ctx.rng, 1500 if ctx.thorough else 150))
+    # 3b. HISTORIES on one Project + TaskRunner object: every pair of request lists (all orders) on every graph
+    #     with <= 3 targets, pairs of ascending subsets with self-loops, sampled triples / n=4 / edits in between
+    b.add_histories(corpus_histories())
+    for n in (1, 2, 3):
+        b.add_histories(pair_histories(n, False, request_lists(n)))
+        b.add_histories(pair_histories(n, True, subsets(n)))
+    rng = ctx.rng
+    b.add_histories(pair_histories(3, False, request_lists(3), length=3, rng=rng, per_graph=40))
+    b.add_histories(pair_histories(4, False, request_lists(4), masks=[rng.getrandbits(12) for _ in range(300)], rng=rng, per_graph=12))
+    b.add_histories(pair_histories(5, False, request_lists(5), masks=[rng.getrandbits(20) & rng.getrandbits(20) for _ in range(200)],
+                                   length=3, rng=rng, per_graph=6))
+    b.add_histories(edit_between_builds(3, [rng.getrandbits(6) for _ in range(12)], subsets(3)))
+    b.add_histories(random_histories(rng, 30000 if ctx.thorough else 3000))
     merge(ctx, b.finish())
     nontriv_big = 0
     if ctx.thorough:
         # exhaustive n=5 (2^20 graphs x 31 requests) and n=4 with self-loops (2^16 x 15), in a process pool
         big = chunk_specs(4, True, 8192, False) + chunk_specs(5, False, 8192, False)
+        hist_specs = ([("pairs-loops", 3, lo, lo + 32) for lo in range(0, 512, 32)]          # 512 graphs x 15^2 pairs
+                      + [("triples", 3, lo, lo + 4) for lo in range(0, 64, 4)]               # 64 graphs x 15^3 triples
+                      + [("pairs4", 4, lo, lo + 256) for lo in range(0, 4096, 256)]          # 4096 graphs x 15^2 pairs
+                      + [("edits", 3, lo, lo + 8) for lo in range(0, 64, 8)])                # every single added dependency
         import multiprocessing as mp
         with mp.get_context("fork").Pool(min(12, os.cpu_count() or 2)) as pool:
             for s in pool.imap_unordered(exhaustive_chunk, big, chunksize=1):
                 nontriv_big += merge(ctx, s)
+            for s in pool.imap_unordered(history_chunk, hist_specs, chunksize=1):
+                nontriv_big += merge(ctx, s)
         # 4. the order must not depend on the hash seed (set iteration): re-run a sample in subprocesses
         hashseed_runs(ctx)
+    ctx.extra_cov["exhaustive_histories"] = (
+        "every ordered pair of duplicate-free request lists (all orders) played on ONE Project+TaskRunner, for every digraph without "
+        "self-loops on <=3 targets; every pair of ascending request subsets with self-loops on <=3 targets"
+        + ("; thorough: all list pairs with self-loops (n<=3), all triples of lists (n=3), all pairs of ascending subsets on "
+           "every 4-target digraph, [build, add any one missing dependency, build] on every 3-target digraph" if ctx.thorough else ""))
     ctx.extra_cov["exhaustive"] = True
     ctx.extra_cov["exhaustive_domain"] = (
         "all labelled digraphs without self-loops on 1..%d targets x all non-empty request subsets; with self-loops on 1..%d targets"
@@ -691,11 +940,14 @@ def replay(ctx, rp):
     """re-run the recorded failing case (replays/C34/*.json) on the current code; then the corpus"""
     case = rp.get("case")
     if isinstance(case, dict) and "graph" in case:
-        merge(ctx, process([case_from_json(case)]))
+        merge(ctx, replay_case(case))
     for d in rp.get("disagreements", []):
         if isinstance(d.get("case"), dict) and "graph" in d["case"]:
-            merge(ctx, process([case_from_json(d["case"])]))
-    merge(ctx, process(corpus_cases()))
+            merge(ctx, replay_case(d["case"]))
+    b = Batch()
+    b.add_cases(corpus_cases())
+    b.add_histories(corpus_histories())
+    merge(ctx, b.finish())
 
 
 if __name__ == "__main__":
